@@ -1,4 +1,4 @@
 // harness TU for R3 (double)
 #define HX_HAS_ROTATION 0
 #include "generic.h"
-namespace hx { void run_R3(const Req& r, Resp& R) { run<manif::R3d>(r, R); } }
+namespace hx { void run_R3(const Req& r, Resp& R) { run<manif::Rn<HX_SC, 3>>(r, R); } }
